@@ -297,7 +297,24 @@ def getitem(it, a, key):
             if step is None:
                 step = 1
             if not is_conc(step):
-                raise Unsupported("symbolic slice step")
+                # symbolic step: only a step the path condition makes positive (a[i::n] with n >= 1); the length is a fresh
+                # integer L constrained by its defining inequalities  step*(L-1) < stop-start <= step*L  (L = 0 for an empty slice)
+                if not is_int_valued(step):
+                    raise PyException("TypeError", "slice indices must be integers")
+                stz = zi(step)
+                if it.ctx.decide(stz > 0) is not True:
+                    raise Unsupported("symbolic slice step of undecided sign")
+                start = _norm_bound(it, k.start, dim, 0)
+                stop = _norm_bound(it, k.stop, dim, dim)
+                diff = zi(r_sub(stop, start))
+                ln = z3.Int(fresh_name("slen"))
+                it.ctx.assume(z3.And(ln >= 0, z3.Implies(diff <= 0, ln == 0),
+                                     z3.Implies(diff > 0, z3.And(stz * (ln - 1) < diff, diff <= stz * ln))))
+                plan.append(("slice", start, stz, outpos, stop))
+                shape.append(ln)
+                outpos += 1
+                src += 1
+                continue
             step = int(step)
             if step == 0:
                 raise PyException("ValueError", "slice step cannot be zero")
@@ -360,7 +377,7 @@ def getitem(it, a, key):
                 _, start, step, pos, stop = p
                 conds.append(cmp(">=", s, start))
                 conds.append(cmp("<", s, stop))
-                if step == 1:
+                if is_conc(step) and step == 1:
                     out[pos] = simp(r_sub(s, start))
                 else:
                     d = r_sub(s, start)
@@ -1146,6 +1163,12 @@ def call_builtin(it, name, args, kwargs):
         raise Unsupported("round with ndigits")
     if name == "enumerate":
         return Enumerate(args[0])
+    if name == "slice":
+        if len(args) == 1:
+            return slice(None, args[0], None)
+        if len(args) in (2, 3):
+            return slice(*args)
+        raise PyException("TypeError", "slice expected at most 3 arguments")
     if name == "zip":
         return Zip(args)
     if name in ("min", "max"):
